@@ -289,7 +289,8 @@ class Fn:
 
 def translate(repo: str) -> str:
     src = {}
-    for rel in ("repid/data/_parameters.py", "repid/retry_policy.py", "repid/connections/in_memory/utils.py",
+    for rel in ("repid/data/_parameters.py", "repid/data/_buckets.py", "repid/job.py", "repid/retry_policy.py",
+                "repid/connections/in_memory/utils.py",
                 "repid/connections/rabbitmq/utils.py", "repid/connections/redis/utils.py"):
         src[rel] = ast.parse(Path(repo, rel).read_text())
     out = ["(* GENERATED by harness/translate.py from /repo's current source - do not edit. *)",
@@ -314,6 +315,14 @@ def translate(repo: str) -> str:
     P = "repid/data/_parameters.py"
     emit("gen_is_overdue", "(p : params) (now : Z)", "bool", Fn("is_overdue", "bool", {"self": "p"}, {}),
          find_func(src[P], ["Parameters", "is_overdue"]), P + " Parameters.is_overdue")
+    # expiry of argument buckets, result buckets and jobs: the same two fields (`timestamp`, `ttl`) and the same clock; the
+    # object is represented by a params record of which only p_ts / p_ttl can be mentioned (any other attribute path that a
+    # bucket or a job has is unknown to FIELDS and makes the translation fail)
+    for rel, cls, name in (("repid/data/_buckets.py", "ArgsBucket", "gen_args_bucket_is_overdue"),
+                           ("repid/data/_buckets.py", "ResultBucket", "gen_result_bucket_is_overdue"),
+                           ("repid/job.py", "Job", "gen_job_is_overdue")):
+        emit(name, "(p : params) (now : Z)", "bool", FnExpiry("is_overdue", "bool", {"self": "p"}, {}),
+             find_func(src[rel], [cls, "is_overdue"]), f"{rel} {cls}.is_overdue")
     # the cron branch: `self.delay.cron` is the constant None, so its body (with the raise) must disappear
     emit("gen_compute_next", "(p : params) (now : Z)", "optZ", FnCron("compute_next_execution_time", "optZ", {"self": "p"}, {}),
          find_func(src[P], ["Parameters", "compute_next_execution_time"]), P + " Parameters.compute_next_execution_time")
@@ -333,6 +342,17 @@ def translate(repo: str) -> str:
     emit("gen_wait_timestamp_redis", "(p : params) (now : Z)", "optZ", Fn("wait_timestamp", "optZ", {"params": "p"}, {}),
          find_func(src[rel], ["wait_timestamp"]), rel + " wait_timestamp")
     return "\n".join(out)
+
+
+class FnExpiry(Fn):
+    """is_overdue of buckets and jobs: only `self.timestamp` and `self.ttl` exist on the object."""
+
+    def expr(self, e: ast.AST) -> tuple[str, str]:
+        if isinstance(e, ast.Attribute):
+            base, path = self.attr_path(e)
+            if base is not None and path not in (("ttl",), ("timestamp",)):
+                raise TranslateError(f"attribute {ast.unparse(e)} of a bucket / job in is_overdue")
+        return super().expr(e)
 
 
 class FnCron(Fn):
